@@ -16,6 +16,11 @@ MCTopics == {T_ab, T_ac}
 MCFilters == {F_ab, F_ap}
 MCMatch == {<<t, f>> \in MCTopics \X MCFilters : MT!Matches(t, f)}
 
+\* c1 alternates: n1 persistent, n3 clean, n4 persistent
+MCMixed1 == [n \in Nets |-> n \in {"n2", "n3"}]
+MCTopics1 == {T_ab}
+MCFilters1 == {F_ab}
+
 \* richer universe for generated schedules: overlapping literal / + / # filters and a $-topic
 MCTopics3 == {T_ab, T_ac, T_dx}
 MCFilters3 == {F_ab, F_ap, F_h}
@@ -23,9 +28,9 @@ MCMatch3 == {<<t, f>> \in MCTopics3 \X MCFilters3 : MT!Matches(t, f)}
 
 MCNoWill == [n \in Nets |-> NOMSG]
 \* net k belongs to client k (n1 -> c1, ...); n3 reuses c1 (reconnect / takeover)
-MCNetCid == [n \in Nets |-> CASE n = "n1" -> "c1" [] n = "n2" -> "c2" [] n = "n3" -> "c1" [] OTHER -> "c2"]
+MCNetCid == [n \in Nets |-> CASE n = "n1" -> "c1" [] n = "n2" -> "c2" [] n = "n3" -> "c1" [] n = "n4" -> "c1" [] OTHER -> "c2"]
 MCAllClean == [n \in Nets |-> TRUE]
-MCPersistent1 == [n \in Nets |-> ~(MCNetCid[n] = "c1")]
+MCPersistent1 == [n \in Nets |-> ~(MCNetCid[n] = "c1")]      \* c1 connects with clean session off
 
 ChanBound == Len(chan) <= 4 /\ \A n \in Nets : Len(nets[n].ibuf) <= 2
 =============================================================================
